@@ -109,16 +109,27 @@ def opd_formula(ctx):
                              'the intensity returned with the OPD is not the '
                              'image-surface intensity record',
                              construct='OPD intensity'))
-    ta = got.get('trace_args', [])
+    # the pupil rays are the samples of THIS object's distribution (the same
+    # object the tilt correction and the consumers read x / y from)
+    tcalls = [c_ for c_ in ast.walk(f.node) if isinstance(c_, ast.Call) and
+              unparse(c_.func) == 'self.optic.trace']
+    ta = [unparse(a) for a in tcalls[0].args] if tcalls else []
+    kw = {k.arg: unparse(k.value) for k in tcalls[0].keywords} if tcalls else {}
+    # Optic.trace(Hx, Hy, wavelength, num_rays, distribution); *field = 2 args
+    pos = 4 - (1 if ta and ta[0].startswith('*') else 0)
+    dist = ta[pos] if len(ta) > pos else kw.get('distribution')
     if ta and ta[0] == '*field' and wl[0] in ta and \
-            'self.distribution' in ta:
-        res.ok('pupil rays: optic.trace(*field, wavelength, None, '
+            dist == 'self.distribution':
+        res.ok('pupil rays: optic.trace(*field, wavelength, ., '
                'self.distribution)')
     else:
-        res.fail(ctx.finding('OPD-FORMULA', f, f.node,
-                             f'pupil trace arguments {ta} are not (field, '
-                             f'wavelength, distribution of this object)',
-                             construct='pupil trace arguments'))
+        res.fail(ctx.finding(
+            'OPD-FORMULA', f, tcalls[0] if tcalls else f.node,
+            f'the pupil trace receives distribution={dist} instead of this '
+            f'object\'s own sampling object: the rays traced are not the '
+            f'documented pupil samples that the tilt correction, maps and fits '
+            f'use (they differ for unseeded random sampling)',
+            construct='pupil trace distribution argument'))
     return res
 
 
